@@ -92,6 +92,23 @@ class C05(LBCheck):
       add_member()
       classes.add('zk-backed:change-during-loading')
       gevent.sleep(0)
+    members0 = sorted(p_ for p_ in zk.nodes if p_.startswith(path + '/member_'))
+    if lat_cls != 'zero' and len(members0) >= 6 and idx % 16 == 5:
+      # a member re-registers under its old node name with another address while the balancer is still
+      # loading: the listing without it and the listing with it again are both delivered (one round
+      # trip apart) and wait, queued, for the provider's worker
+      classes.add('zk-backed:same-name-new-address-during-loading')
+      old = members0[-1]              # (read last: the balancer is still busy with the others)
+      gevent.sleep(0.0001)            # the balancer has begun to read the member list
+      zk.delete_node(old)
+      gevent.sleep(2 * zk.latency[1] + 0.001)
+      port[0] += 1
+      blob = {'serviceEndpoint': {'host': 'svc%d' % port[0], 'port': port[0]},
+              'additionalEndpoints': {'aux': {'host': 'aux%d' % port[0], 'port': port[0] + 1000},
+                                      'thrift': {'host': 'th%d' % port[0], 'port': port[0] + 2000},
+                                      'admin': {'host': 'adm%d' % port[0], 'port': port[0] + 3000}},
+              'status': 'ALIVE'}
+      zk.create_node(old, json.dumps(blob).encode())
     g = 0
     while not open_ar.ready() and g < 100:
       env.advance(0.05)
